@@ -361,3 +361,197 @@ Proof.
   split; [intros R R' _; split; intros; assumption|].
   eexists. split; [vm_compute; reflexivity|]. split; vm_compute; reflexivity.
 Qed.
+
+(* ---------- labels are kept only on registered (stereogenic) centres: every molecule, every chirality function ---------- *)
+Lemma collect_registered r g cs : In cs (collect r g) ->
+  match fst cs with
+  | CT n => In n (keys (r_sg_th r)) /\ exists a, In (n, a) (m_atoms g) /\ a_stereo a = Some (snd cs)
+  | CA n => In n (keys (r_sg_al r)) /\ ~ In n (keys (r_sg_th r)) /\ exists a, In (n, a) (m_atoms g) /\ a_stereo a = Some (snd cs)
+  | CC a b => exists n m bd, In (n, m, bd) (bonds_once g) /\ b_stereo bd = Some (snd cs) /\ zget (r_ct_terminals r) n = Some (a, b)
+  end.
+Proof.
+  unfold collect. rewrite !in_app_iff. intros [H|[H|H]].
+  - unfold collect_th in H. apply in_flat_map in H. destruct H as ([n a] & Hin & H). cbn [fst snd] in H.
+    destruct (a_stereo a) as [s|] eqn:Es; [|destruct H]. destruct (zmem n (keys (r_sg_th r))) eqn:Ez; [|destruct H].
+    destruct H as [<-|[]]. cbn [fst snd]. split; [apply zmem_In; exact Ez|]. exists a. tauto.
+  - unfold collect_al in H. apply in_flat_map in H. destruct H as ([n a] & Hin & H). cbn [fst snd] in H.
+    destruct (a_stereo a) as [s|] eqn:Es; [|destruct H]. destruct (zmem n (keys (r_sg_th r))) eqn:Ez; [destruct H|].
+    destruct (zmem n (keys (r_sg_al r))) eqn:Ea; [|destruct H]. destruct H as [<-|[]]. cbn [fst snd].
+    split; [apply zmem_In; exact Ea|]. split; [intros Hk; apply zmem_In in Hk; congruence|]. exists a. tauto.
+  - unfold collect_ct in H. apply in_flat_map in H. destruct H as ([[n m] bd] & Hin & H). cbn [fst snd] in H.
+    destruct (b_stereo bd) as [s|] eqn:Es; [|destruct H]. destruct (zget (r_ct_terminals r) n) as [[a b]|] eqn:Et; [|destruct H].
+    destruct H as [<-|[]]. cbn [fst snd]. exists n, m, bd. tauto.
+Qed.
+
+Theorem fix_stereo_only_registered (chiral : list label -> centre -> bool) r g cs :
+  In cs (fix_stereo_labels chiral r g) ->
+  In cs (collect r g) /\
+  match fst cs with
+  | CT n => In n (keys (r_sg_th r))
+  | CA n => In n (keys (r_sg_al r))
+  | CC a b => exists n, zget (r_ct_terminals r) n = Some (a, b)
+  end.
+Proof.
+  unfold fix_stereo_labels. destruct (fix_loop_justified chiral (S (List.length (collect r g))) [] (collect r g)) as (kept & E & Hi & _).
+  rewrite E. cbn [app]. intros H. pose proof (Hi cs H) as Hc. split; [exact Hc|].
+  pose proof (collect_registered r g cs Hc) as R. destruct (fst cs) as [n|n|a b].
+  - tauto.
+  - tauto.
+  - destruct R as (n & m & bd & _ & _ & Ht). exists n. exact Ht.
+Qed.
+
+(* ---------- ALL molecules: exactly which tetrahedrons are chiral ---------- *)
+Section TetraSpec.
+  Variable g : mol.
+  Variable r : registries.
+  Variable ar : list (Z * list (list Z)).
+  Variable w : Z -> Z.
+
+  Lemma fold_sadd_In {E} (P : E -> bool) (key : E -> Z) : forall l t0 n,
+    In n (fold_left (fun t e => if P e then sadd (key e) t else t) l t0) <-> In n t0 \/ exists e, In e l /\ P e = true /\ key e = n.
+  Proof.
+    induction l as [|e l IH]; intros t0 n; cbn [fold_left].
+    - split; [tauto | intros [H|[e [[] _]]]; exact H].
+    - rewrite IH. destruct (P e) eqn:Ep.
+      + rewrite sadd_In. split.
+        * intros [[->|H]|[e' [H1 H2]]]; [right; exists e; cbn; tauto | tauto | right; exists e'; cbn; tauto].
+        * intros [H|[e' [[<-|H1] [H2 H3]]]]; [tauto | left; left; symmetry; exact H3 | right; exists e'; tauto].
+      + split.
+        * intros [H|[e' [H1 H2]]]; [tauto | right; exists e'; cbn; tauto].
+        * intros [H|[e' [[<-|H1] [H2 H3]]]]; [tauto | congruence | right; exists e'; tauto].
+  Qed.
+
+  Definition linker_unsym (e : Z * (Z * Z * Z * Z)) : bool :=
+    let '(_, (n1, n2, m1, m2)) := e in negb (w n1 =? w n2) && negb (w m1 =? w m2).
+
+  Lemma step_tetra_c_t n : In n (c_t (step_tetra r ar w)) <->
+    (exists env, In (n, env) (r_sg_th r) /\ distinct_classes w env = true) \/
+    (exists e, In e (rl_th r ar) /\ linker_unsym e = true /\ fst e = n).
+  Proof.
+    unfold step_tetra. cbn [c_t].
+    assert (E : forall l t0, fold_left (fun t e => let '(n, (n1, n2, m1, m2)) := e in
+                            if negb (w n1 =? w n2) && negb (w m1 =? w m2) then sadd n t else t) l t0 =
+                            fold_left (fun t (e : Z * (Z * Z * Z * Z)) => if linker_unsym e then sadd (fst e) t else t) l t0).
+    { induction l as [|[k [[[a b] c] d]] l IH]; intros t0; cbn [fold_left]; [reflexivity|]. rewrite IH. reflexivity. }
+    rewrite E, fold_sadd_In. rewrite in_map_iff. split.
+    - intros [[[n' env] [En H]]|H]; [left | right; exact H]. cbn in En. subst n'. apply filter_In in H. exists env. exact H.
+    - intros [[env H]|H]; [left; exists (n, env); split; [reflexivity | apply filter_In; exact H] | right; exact H].
+  Qed.
+
+  Lemma step_graph_c_t s s' : step_graph r ar s = Ok s' ->
+    forall n, In n (c_t s') <-> In n (c_t s) \/
+      ((1 <? Z.of_nat (List.length (c_graph s))) = true /\ In n (keys (c_graph s')) /\ In n (keys (r_sg_th r))).
+  Proof.
+    unfold step_graph. destruct (1 <? Z.of_nat (List.length (c_graph s))) eqn:E1.
+    2:{ intros E n. injection E as <-. split; [tauto | intros [H|[H _]]; [exact H | discriminate]]. }
+    destruct (prune _ _ _) as [gr|e]; [|discriminate]. intros E. injection E as <-. intros n.
+    set (f := fun s0 k => if zmem k (keys (r_sg_th r)) then mkCs (sadd k (c_t s0)) (c_c s0) (c_a s0) (c_sg s0) (c_graph s0) (c_pseudo s0)
+                          else match al_center r k with
+                               | Some c => mkCs (c_t s0) (c_c s0) (sadd c (c_a s0)) (c_sg s0) (c_graph s0) (c_pseudo s0)
+                               | None => mkCs (c_t s0) (sadd k (c_c s0)) (c_a s0) (c_sg s0) (c_graph s0) (c_pseudo s0) end).
+    assert (G : forall l s0, c_graph (fold_left f l s0) = c_graph s0 /\
+                 (forall k, In k (c_t (fold_left f l s0)) <-> In k (c_t s0) \/ (In k l /\ In k (keys (r_sg_th r))))).
+    { induction l as [|k l IH]; intros s0; cbn [fold_left].
+      - split; [reflexivity|]. intros k. split; [tauto | intros [H|[[] _]]; exact H].
+      - destruct (IH (f s0 k)) as [I1 I2]. split.
+        + rewrite I1. unfold f. destruct (zmem k (keys (r_sg_th r))); [reflexivity|]. destruct (al_center r k); reflexivity.
+        + intros x. rewrite I2. unfold f. destruct (zmem k (keys (r_sg_th r))) eqn:Ez.
+          * cbn [c_t]. rewrite sadd_In. split.
+            -- intros [[->|H]|[H1 H2]]; [right; split; [left; reflexivity | apply zmem_In; exact Ez] | tauto | right; split; [right; exact H1 | exact H2]].
+            -- intros [H|[[<-|H1] H2]]; [tauto | tauto | right; tauto].
+          * assert (Hk : ~ In k (keys (r_sg_th r))) by (intros Hk; apply zmem_In in Hk; congruence).
+            destruct (al_center r k); cbn [c_t]; (split; [intros [H|[H1 H2]]; [tauto | right; split; [right; exact H1 | exact H2]]|
+              intros [H|[[<-|H1] H2]]; [tauto | contradiction | right; tauto]]). }
+    destruct (G (keys gr) (mkCs (c_t s) (c_c s) (c_a s) (c_sg s) gr (c_pseudo s))) as [G1 G2].
+    rewrite G2, G1. cbn [c_t c_graph]. tauto.
+  Qed.
+
+  (* a tetrahedron is chiral (before labelled ones are removed) iff
+     (a) its listed neighbours have pairwise different classes, or
+     (b) it links two rings and in BOTH rings its two ring neighbours have different classes, or
+     (c) it is a stereogenic tetrahedron that stays in the axes graph after pruning *)
+  Theorem chiral_tetrahedrons_spec s : final_state g r ar w = Ok s -> forall n,
+    In n (c_t s) <->
+      (exists env, In (n, env) (r_sg_th r) /\ distinct_classes w env = true) \/
+      (exists n1 n2 m1 m2, In (n, (n1, n2, m1, m2)) (rl_th r ar) /\ w n1 <> w n2 /\ w m1 <> w m2) \/
+      ((1 <? Z.of_nat (List.length (c_graph (pre_graph_state g r ar w)))) = true /\ In n (keys (c_graph s)) /\ In n (keys (r_sg_th r))).
+  Proof.
+    unfold final_state. intros Ef n. rewrite (step_graph_c_t _ _ Ef n).
+    unfold pre_graph_state at 1. rewrite step_axes_t, step_ring_cum_t, step_cum_t, step_tetra_c_t.
+    split.
+    - intros [[H|(e & He & Hu & Hf)]|H]; [left; exact H | right; left | right; right; exact H].
+      destruct e as [k [[[n1 n2] m1] m2]]. cbn in Hf. subst k. unfold linker_unsym in Hu. apply andb_prop in Hu. destruct Hu as [U1 U2].
+      apply negb_true_iff, Z.eqb_neq in U1, U2. exists n1, n2, m1, m2. tauto.
+    - intros [H|[(n1 & n2 & m1 & m2 & He & U1 & U2)|H]]; [left; left; exact H | left; right | right; exact H].
+      exists (n, (n1, n2, m1, m2)). split; [exact He|]. split; [|reflexivity].
+      unfold linker_unsym. apply Z.eqb_neq in U1, U2. rewrite U1, U2. reflexivity.
+  Qed.
+End TetraSpec.
+
+(* non-vacuity with rings: the spiro atom 3 of C1CC12CCO2 links a symmetric ring (classes of 1 and 2 equal) and an unsymmetric one:
+   not chiral (BOTH rings must be unsymmetric); with classes that separate 1 and 2 it is *)
+Definition ex_spiro : mol :=
+  mkMol [(1, (mkAtom 6 None 0 false (Some 2) None)); (2, (mkAtom 6 None 0 false (Some 2) None)); (3, (mkAtom 6 None 0 false (Some 0) None));
+         (4, (mkAtom 6 None 0 false (Some 2) None)); (5, (mkAtom 6 None 0 false (Some 2) None)); (6, (mkAtom 8 None 0 false (Some 0) None))]
+        [(1, [(2, (mkBond 1 None)); (3, (mkBond 1 None))]); (2, [(1, (mkBond 1 None)); (3, (mkBond 1 None))]);
+         (3, [(2, (mkBond 1 None)); (1, (mkBond 1 None)); (4, (mkBond 1 None)); (6, (mkBond 1 None))]);
+         (4, [(3, (mkBond 1 None)); (5, (mkBond 1 None))]); (5, [(4, (mkBond 1 None)); (6, (mkBond 1 None))]);
+         (6, [(5, (mkBond 1 None)); (3, (mkBond 1 None))])].
+Definition ex_spiro_ar : list (Z * list (list Z)) :=
+  [(1, [[1; 2; 3]]); (2, [[1; 2; 3]]); (3, [[1; 2; 3]; [3; 4; 5; 6]]); (4, [[3; 4; 5; 6]]); (5, [[3; 4; 5; 6]]); (6, [[3; 4; 5; 6]])].
+Definition ex_spiro_w (x : Z) : Z := match zget [(1, 1); (2, 1); (4, 2); (5, 3); (3, 4); (6, 5)] x with Some v => v | None => 0 end.
+
+Theorem chiral_spiro_example :
+  exists r, registries_real ex_spiro = Ok r /\ rl_th r ex_spiro_ar = [(3, (2, 1, 6, 4))] /\
+    chiral_centres ex_spiro r ex_spiro_ar ex_spiro_w = Ok [] /\
+    chiral_centres ex_spiro r ex_spiro_ar (fun x => x) = Ok [CT 3].
+Proof. eexists. split; [vm_compute; reflexivity|]. repeat split; vm_compute; reflexivity. Qed.
+
+(* ---------- no rings: chirality is equivariant under injective renumbering (classes carried along) ---------- *)
+Section AcyclicEquivariant.
+  Variable s : Z -> Z.
+  Hypothesis s_inj : forall x y, s x = s y -> x = y.
+  Variable r : registries.
+  Variable w w' : Z -> Z.
+  Hypothesis w_s : forall x, w' (s x) = w x.
+  Hypothesis Hlen : len2 (r_sg_cum r).
+
+  Lemma distinct_classes_rn env : distinct_classes w' (map s env) = distinct_classes w env.
+  Proof.
+    induction env as [|x l IH]; [reflexivity|]. cbn [map distinct_classes]. rewrite IH. f_equal. f_equal.
+    rewrite existsb_map. apply existsb_ext. intros y. rewrite !w_s. reflexivity.
+  Qed.
+
+  Lemma ends_distinct_rn e : ends_distinct w' (rn_env s e) = ends_distinct w e.
+  Proof.
+    destruct e as [[[n1 m1] n2] m2]. unfold ends_distinct, rn_env. rewrite !w_s.
+    destruct n2 as [a|], m2 as [b|]; cbn [option_map wo]; rewrite ?w_s; reflexivity.
+  Qed.
+
+  Theorem acyclic_chiral_equivariant :
+    (forall n, In (s n) (c_t (acyclic_state (rn_reg s r) w')) <-> In n (c_t (acyclic_state r w))) /\
+    (forall n, In (s n) (c_c (acyclic_state (rn_reg s r) w')) <-> In n (c_c (acyclic_state r w))) /\
+    (forall c, In (s c) (c_a (acyclic_state (rn_reg s r) w')) <-> In c (c_a (acyclic_state r w))).
+  Proof.
+    split; [|split].
+    - intros n. rewrite !acyclic_chiral_tetrahedrons. cbn [rn_reg r_sg_th]. split.
+      + intros [env' [H D]]. apply in_map_iff in H. destruct H as ([k env] & E & H). cbn [fst snd] in E. injection E as Ek <-.
+        apply s_inj in Ek. subst k. exists env. split; [exact H | rewrite <- distinct_classes_rn; exact D].
+      + intros [env [H D]]. exists (map s env). split; [|rewrite distinct_classes_rn; exact D].
+        apply in_map_iff. exists (n, env). split; [reflexivity | exact H].
+    - intros n. rewrite (proj1 (acyclic_chiral_cumulenes (rn_reg s r) w')), (proj1 (acyclic_chiral_cumulenes r w)). cbn [rn_reg r_sg_cum]. split.
+      + intros (pe' & H & D & O & E). apply in_map_iff in H. destruct H as (pe & <- & H). cbn [fst snd] in *.
+        exists pe. rewrite ends_distinct_rn in D. rewrite odd_len_rn in O. rewrite first_z_rn in E by (apply Hlen; exact H).
+        apply s_inj in E. tauto.
+      + intros (pe & H & D & O & E). exists (map s (fst pe), rn_env s (snd pe)). cbn [fst snd].
+        split; [apply in_map_iff; exists pe; split; [reflexivity | exact H]|]. rewrite ends_distinct_rn, odd_len_rn, first_z_rn by (apply Hlen; exact H).
+        subst n. tauto.
+    - intros c. rewrite (proj2 (acyclic_chiral_cumulenes (rn_reg s r) w')), (proj2 (acyclic_chiral_cumulenes r w)). cbn [rn_reg r_sg_cum]. split.
+      + intros (pe' & H & D & O & E). apply in_map_iff in H. destruct H as (pe & <- & H). cbn [fst snd] in *.
+        exists pe. rewrite ends_distinct_rn in D. rewrite odd_len_rn in O. rewrite centre_of_rn in E by (apply Hlen; exact H).
+        apply s_inj in E. tauto.
+      + intros (pe & H & D & O & E). exists (map s (fst pe), rn_env s (snd pe)). cbn [fst snd].
+        split; [apply in_map_iff; exists pe; split; [reflexivity | exact H]|]. rewrite ends_distinct_rn, odd_len_rn, centre_of_rn by (apply Hlen; exact H).
+        subst c. tauto.
+  Qed.
+End AcyclicEquivariant.
